@@ -167,7 +167,11 @@ def rnd_closing(rng):
     if k == "spf-bad":
         return rng.choice([m_spf(12), m_spf(0), m_spf(16, 16, 0, 0), m_spf(255)])
     if k == "textchat-bad":
-        return m_textchat(rng.choice([0, 4096, 4097, 0x7FFFFFFF, 0xFFFFFFFC]))
+        n = rng.choice([0, 4096, 4097, 4117, 0x7FFFFFFF, 0xFFFFFFFC])
+        b, a = m_textchat(n)
+        if n and rng.random() < 0.7:
+            b += bytes(rng.randrange(256) for _ in range(4095))     # a clamping server would eat exactly this
+        return b, a
     if k == "cut-big":
         n = rng.choice([LIMIT + 1, LIMIT + 2, 0x7FFFFFFF, 0x80000000, 0xFFFFFFFF, 0xFFF00000])
         return bytes([6, 0, 0, 0]) + be32(n), ("closing", "cut-big")
@@ -437,6 +441,145 @@ def gen_seg(rng, which, kcuts, ws=False, sample=None):
     return sc
 
 
+PROVIDE = 1 << 28
+
+
+def m_provide(formats, corrupt=None):
+    """extended-clipboard Provide. formats: dict bit -> bytes (bit 0 = text).  corrupt: None |
+    'short' (last record truncated) | 'big' (last record announces > 1 MiB) -> (flags, plain, ann)"""
+    flags = PROVIDE
+    plain = b""
+    bits = sorted(formats)
+    for k, b in enumerate(bits):
+        flags |= 1 << b
+        d = formats[b]
+        if corrupt and k == len(bits) - 1:
+            if corrupt == "short":
+                plain += be32(len(d) + 5) + d
+            else:
+                plain += be32(LIMIT + 1 + len(d)) + d
+        else:
+            plain += be32(len(d)) + d
+    text = formats.get(0)
+    text_ok = text is not None and not (corrupt and bits[-1] == 0)
+    ann = ["prov", len(text) if text_ok else None, fnv(text) if text_ok else None, corrupt is None]
+    return flags, plain, ann
+
+
+def op_provide(sc, c, formats, rng, corrupt=None):
+    flags, plain, ann = m_provide(formats, corrupt)
+    cuts = sorted(rng.randint(0, 40) for _ in range(rng.choice([0, 1, 3])))
+    sc.op("sendprov %d %s %s%s" % (c, hx(be32(flags)), hx(plain), cutstr(cuts)),
+          {"c": c, "wf": True, "msgs": [ann], "n": len(plain)})
+
+
+def gen_ext(rng):
+    """extended clipboard: Provide with several formats of different lengths, Caps / Request / Peek /
+    Notify in between, a view-only client, a WebSocket client; sentinel key events keep sync visible"""
+    sc = Script("ext")
+    w, h = 40, 30
+    sc.op("screen %d %d 0 1 0" % (w, h), {"screen": (w, h, 0, 1, 0)})
+    handshake(sc, rng, 1, 0, minor=8, split=False)
+    handshake(sc, rng, 2, 0, minor=8, split=False, ws=True)
+    handshake(sc, rng, 3, 0, minor=8, split=False)
+    sc.op("viewonly 3 1", {"viewonly": (3, 1)})
+    rb = lambda n: bytes(rng.randrange(256) for _ in range(n))
+    for c in (1, 2, 3):
+        sc.send(c, [m_setenc([0, EXTCLIP])])
+    cases = [
+        {0: b"hello"},
+        {0: b"hello", 1: b"AB", 2: b"xyz-html"},                 # text longer than the last format
+        {0: b"hi", 1: rb(40), 2: rb(7)},                          # text shorter than the others
+        {0: rb(rng.randint(1, 300)), 2: rb(rng.randint(1, 300))},
+        {1: b"rtf only", 2: b"<b>x</b>"},                         # no text: no callback
+        {0: rb(3000), 1: rb(1), 3: rb(5000), 4: rb(2)},
+        {0: b"x"},
+        {0: rb(rng.randint(1, 64)), 1: rb(rng.randint(1, 64)), 2: rb(rng.randint(1, 64))},
+    ]
+    rng.shuffle(cases)
+    for k, f in enumerate(cases):
+        c = (1, 2, 3)[k % 3] if k >= 3 else 1 + (k % 2)
+        op_provide(sc, c, f, rng)
+        sc.send(c, [m_key(1, 0x50524F56)], rnd_cuts(rng, 8))
+        # the other actions of the extension carry no clipboard text
+        kind = rng.choice(["caps", "request", "peek", "notify"])
+        fl = {"caps": (1 << 24) | 1 | rng.choice([0, 0x1E000000]), "request": (1 << 25) | 1, "peek": 1 << 26, "notify": (1 << 27) | 1}[kind]
+        body = be32(fl) + (be32(rng.getrandbits(20)) if kind == "caps" else b"")
+        data = bytes([6, 0, 0, 0]) + be32((-len(body)) & 0xFFFFFFFF) + body
+        sc.op("send %d %s%s" % (c, hx(data), cutstr(rnd_cuts(rng, len(data)))), {"c": c, "wf": True, "msgs": [["benign", "ext-" + kind]], "n": len(data)})
+        sc.send(c, [rnd_cut(rng), m_key(0, 0x50524F56)])
+    # corrupt provides: the client is closed, nothing but (possibly) its own text was delivered
+    op_provide(sc, 1, {0: b"text first", 1: b"then a short record"}, rng, corrupt="short")
+    op_provide(sc, 2, {0: b"abc", 2: b"big"}, rng, corrupt="big")
+    sc.send(3, [m_key(1, 0x41)])
+    sc.op("pump", {"pump": 1})
+    return sc
+
+
+def gen_chat(rng):
+    """UltraVNC TextChat at the boundary lengths, each followed IN THE SAME STREAM by bytes that look
+    like key / pointer events: a valid chat line is skipped exactly, an over-long or empty one closes
+    the connection and nothing after it may be delivered"""
+    sc = Script("chat")
+    w, h = 40, 30
+    sc.op("screen %d %d 0 0 0" % (w, h), {"screen": (w, h, 0, 0, 0)})
+    c = 1
+    keyish = (m_key(1, 0x61)[0] + m_ptr(1, 3, 4)[0])
+    lens = [0, 1, 2, 4094, 4095, 4096, 4097, 4117, 8192, 65536, 0x7FFFFFFF, 0x80000000, 0xFFFFFFFC,
+            0xFFFFFFFD, 0xFFFFFFFE, 0xFFFFFFFF]
+    for n in lens:
+        handshake(sc, rng, c, 0, minor=8, split=False, ws=(c % 5 == 0))
+        special = n >= 0xFFFFFFFD
+        valid = 0 < n < 4096
+        tail = [m_key(1, 0x43484154), m_ptr(2, 5, 6), m_key(0, 0x43484154)]
+        if special:
+            first = (bytes([11, 0, 0, 0]) + be32(n), ("benign", "textchat"))
+        elif valid:
+            body = (keyish * (n // len(keyish) + 1))[:n]           # chat text that looks like input
+            first = (bytes([11, 0, 0, 0]) + be32(n) + body, ("benign", "textchat"))
+        else:
+            # what follows the header: 4095 filler bytes, then well-aligned "input"
+            fill = (keyish * 400)[:4095] if n else b""
+            first = (bytes([11, 0, 0, 0]) + be32(n) + fill, ("closing", "textchat-bad"))
+        msgs = [first] + tail
+        tot = sum(len(m[0]) for m in msgs)
+        sc.send(c, msgs, sorted(rng.randint(0, tot) for _ in range(rng.choice([0, 1, 2]))))
+        if valid or special:
+            sc.send(c, [m_key(1, 0x4F4B)])
+        c += 1
+        if c > 15:
+            break
+    sc.op("pump", {"pump": 1})
+    return sc
+
+
+def gen_login(rng):
+    """both view-only mechanisms on password screens: flag set by the application before the login
+    (newClientHook, or directly) x position of the password used.  View-only is only ever raised."""
+    sc = Script("login")
+    w, h = 40, 30
+    sc.op("screen %d %d 1 %d 0" % (w, h, rng.randint(0, 1)), {"screen": (w, h, 1, 0, 0)})
+    c = 1
+    combos = [(hook, pre, kind) for hook in (0, 1) for pre in (0, 1) for kind in ("full", "view")]
+    rng.shuffle(combos)
+    for (hook, pre, kind) in combos:
+        sc.op("hookvo %d" % hook, {"hookvo": hook})
+        minor = rng.choice([3, 7, 8])
+        sc.op("conn %d" % c, {"conn": c})
+        if pre:
+            sc.op("viewonly %d 1" % c, {"viewonly": (c, 1)})
+        d = VERSIONS[minor] + (b"" if minor < 7 else b"\x02")
+        sc.op("send %d %s%s" % (c, hx(d), cutstr(rnd_cuts(rng, len(d)))), {"hs": c})
+        sc.op("auth %d %s%s" % (c, kind, cutstr(rnd_cuts(rng, 16))), {"auth": c, "kind": kind})
+        sc.op("send %d %s" % (c, hx(bytes([rng.choice([0, 1])]))), {"hs": c})
+        msgs = [rnd_key(rng), rnd_ptr(rng, w, h, mask=0), rnd_cut(rng), m_key(1, 0x4C4F47)]
+        sc.send(c, msgs, rnd_cuts(rng, sum(len(m[0]) for m in msgs)))
+        c += 1
+    sc.op("hookvo 0", {"hookvo": 0})
+    sc.op("pump", {"pump": 1})
+    return sc
+
+
 def gen_limit(rng, lens, nclients=2, ext=False, ws=False):
     """classic ClientCutText around the 1 MiB limit, other clients must be unaffected"""
     sc = Script("limit")
@@ -554,6 +697,7 @@ def oracle(lines, anns, impl):
     holder = None               # client whose button press the server has accepted
     lastpos = {}                # defer>0: last position each client sent / last delivered
     sent, sent_ok, delivered = {}, {}, {}   # defer>0: pointer events accepted from / delivered for each client
+    hook_vo = False             # newClientHook currently makes new clients view-only
     dirty = set()               # clients that were fed bytes the generator did not structure (their
                                 # scale factor / button state is unknown to this oracle)
     for idx, (line, ann, (cbs, closed, fin)) in enumerate(zip(lines, anns, bl)):
@@ -581,13 +725,17 @@ def oracle(lines, anns, impl):
             who = int(l.split()[1][1:])
             if actor is not None and who != actor:
                 return where + "callback for c%d while processing input of c%d: %s" % (who, actor, l)
-            if l.startswith("cutu8"):
+            if l.startswith("cutu8") and not any(m and m[0] == "prov" for m in ann.get("msgs", [])):
                 return where + "unexpected UTF-8 clipboard callback: " + l
         for l in cbs:
             if l.startswith("ptr "):
                 p = l.split()
                 delivered.setdefault(int(p[1][1:]), []).append((int(p[2]), int(p[3]), int(p[4])))
-        if ("pump" in ann or "tick" in ann or "viewonly" in ann or "eof" in ann or "conn" in ann) and defer == 0 and cbs:
+        if "hookvo" in ann:
+            hook_vo = bool(ann["hookvo"])
+        if "conn" in ann and hook_vo:
+            vo[ann["conn"]] = True        # the application's newClientHook made it view-only
+        if ("pump" in ann or "tick" in ann or "viewonly" in ann or "eof" in ann or "conn" in ann or "hookvo" in ann) and defer == 0 and cbs:
             return where + "callback without client input: " + cbs[0]
         # isolation: an op on client c never changes another client's status (except reaping by pump)
         if actor is not None:
@@ -677,6 +825,14 @@ def oracle(lines, anns, impl):
                             scale[c] = s
                     elif k == "benign":
                         pass
+                    elif k == "prov":
+                        # extended-clipboard Provide: [.., text_len, text_fnv, ok]; the text must reach
+                        # setXCutTextUTF8 exactly once with exactly these bytes; a corrupt message
+                        # (ok = False) closes the client, whether its text was delivered first is open
+                        if m[1] is not None and not vo.get(c):
+                            exp.append(("cutu8 c%d %d %016x" % (c, m[1], m[2]), not m[3]))
+                        if not m[3]:
+                            alive = False
                     elif k == "closing":
                         alive = False
                     else:
@@ -808,6 +964,10 @@ def run(ctx):
         scripts.append(gen_limit(rng, [LIMIT, LIMIT + 1, 0x7FFFFFFF, 0x80000000, 0xFFFFFFFF, 0xFFF00000 + 5], ext=False))
         scripts.append(gen_limit(rng, [LIMIT, 5, 0x7FFFFFFF], ext=True))
         scripts.append(gen_limit(rng, [LIMIT, 70000, LIMIT + 1], ws=True))
+        for _ in range(3 if not thorough else 40):
+            scripts.append(gen_ext(rng))
+            scripts.append(gen_chat(rng))
+            scripts.append(gen_login(rng))
         if thorough:
             for _ in range(6):
                 scripts.append(gen_limit(rng, [LIMIT - 1, LIMIT, LIMIT + 1, rng.randrange(2, LIMIT)]))
@@ -845,7 +1005,7 @@ def run(ctx):
                     fl["finding"] = fid
                 fails.append(fl)
         classify(sc, impl, dist, seen)
-        if len(samples) < 5 and sc.family in ("mix", "gate", "defer", "defer-scaled", "seg-ws") and len(sc.lines) < 40:
+        if len(samples) < 5 and sc.family in ("mix", "gate", "defer", "defer-scaled", "seg-ws", "login") and len(sc.lines) < 40:
             samples.append({"script": [l[:200] for l in sc.lines], "impl": impl[:80]})
         if len(fails) >= 6:
             break
